@@ -19,7 +19,7 @@ func init() {
 		Quick: 24, Thorough: 300, FloorQuick: 700, FloorThorough: 9000,
 		CaseTimeout: 20 * time.Minute,
 		Assumptions: []string{"SIGKILL is out of scope (C10)", "--out files are outputs, not tables created by a transaction"},
-		Fn: c11Case,
+		Fn:          c11Case,
 	})
 }
 
